@@ -1,6 +1,7 @@
 package main
 
 import (
+	"regexp"
 	"go/ast"
 	"strconv"
 	"go/types"
@@ -35,7 +36,7 @@ var c08MapLoopExceptions = ExcTable{
 	"resolver.(*Resolver).Resolve range PackageAliases:map[string]string":              "longest matching key with a strict > comparison: two matching keys of equal length are both prefixes of importPath of the same length, hence equal; argmax is unique",
 	"resolver.(resolverQuery).finalizeImportsExportsResult range rewrittenFileExtensions:map[string][]string": "the keys .js/.jsx/.mjs/.cjs are mutually suffix-free, so at most one iteration passes strings.HasSuffix(base, old) and the loop breaks right after it",
 	"resolver.(resolverQuery).loadAsFile range rewrittenFileExtensions:map[string][]string": "the keys .js/.jsx/.mjs/.cjs are mutually suffix-free, so at most one iteration passes strings.HasSuffix(base, old) and the loop breaks right after it",
-	"resolver.(resolverQuery).matchTSConfigPaths range Map:map[string][]resolver.TSConfigPath #2": "lexicographic maximum of (prefix length, suffix length) with strict comparisons; two matching patterns with equal lengths have equal prefix and suffix strings, i.e. are the same key (the code comment states this is done for determinism)",
+	"resolver.(resolverQuery).matchTSConfigPaths range Map:map[string][]resolver.TSConfigPath [assigns longestMatch,longestMatchPrefixLength,longestMatchSuffixLength]": "lexicographic maximum of (prefix length, suffix length) with strict comparisons; two matching patterns with equal lengths have equal prefix and suffix strings, i.e. are the same key (the code comment states this is done for determinism)",
 	"resolver.(resolverQuery).parseTSConfigFromSource range Map:map[string][]resolver.TSConfigPath": "filters each key's own slice in place and stores it back under the loop key; the helper only logs located warnings and lazily creates one shared tracker (idempotent)",
 }
 
@@ -77,6 +78,15 @@ func c08MapOrder(p *Prog) *RuleResult {
 			if ok {
 				continue
 			}
+			// several loops over the same map in one function: the reviewed entry is keyed by
+			// what the loop writes, not by its position among its siblings
+			if alt := c08ContentKey(ml); alt != ml.key {
+				if ok2, void2 := guardedExc(p, r, c08MapLoopExceptions, alt); ok2 {
+					continue
+				} else if void2 != "" {
+					void = void2
+				}
+			}
 			if void != "" {
 				void = " [reviewed exception void: " + void + "]"
 			}
@@ -87,6 +97,28 @@ func c08MapOrder(p *Prog) *RuleResult {
 	r.Floor(80)
 	r.StaleCheck(c08MapLoopExceptions)
 	return r
+}
+
+var c08OuterVarRe = regexp.MustCompile(`outer variable (\w+)`)
+var c08OrdinalRe = regexp.MustCompile(` #\d+$`)
+
+// c08ContentKey: the loop's key with the ordinal replaced by the outer variables it assigns.
+func c08ContentKey(ml *mapLoop) string {
+	set := map[string]bool{}
+	for _, pr := range ml.problems {
+		for _, m := range c08OuterVarRe.FindAllStringSubmatch(pr, -1) {
+			set[m[1]] = true
+		}
+	}
+	if len(set) == 0 {
+		return ml.key
+	}
+	var names []string
+	for n := range set {
+		names = append(names, n)
+	}
+	sort.Strings(names)
+	return c08OrdinalRe.ReplaceAllString(ml.key, "") + " [assigns " + strings.Join(names, ",") + "]"
 }
 
 // ---------------------------------------------------------------------------------------------
